@@ -25,6 +25,10 @@ HTTP_CLASSES = [n for n in HTTP_CLASSES if isinstance(getattr(cerrors, n, None),
 VALUES = ['resp', 'resp', 'baseresp', 'str', 'none', 'number', 'dict', 'bytes', 'list']
 MSGS = {'half-emoji': 'cut \ud83d here', 'plain': 'injected failure', 'nonascii': 'défaillance ☃ 中文', 'huge': 'x' * (1 << 20),
         'unprintable': 'ctl\x00\x01\x1b[31m\x7f\udcff', 'braces': '{0} {x} %s %(y)s </pre><script>', 'empty': ''}
+# round 14: a huge message of multi-byte characters (9 bytes per group: a cut at any fixed BYTE offset lands inside a
+# character). Not a key of MSGS - it replaces 'huge' in half of the cases as a function of a draw that exists anyway, so
+# every other dimension of a seed stays what it was.
+HUGE_NONASCII = 'a' + '\xe9\u2603\u4e2dx' * 6000
 HANDLERS = ['default', 'default', 'debug', 'debug', 'reraise', 're_raises', 're_raises_http', 're_other', 'debug_plain_types', 'default_ctx_types']
 ACCEPTS = [None, 'text/html', 'application/json', 'application/xml', 'text/plain', '*/*', 'image/png', 'garbage;;q=x']
 
@@ -237,6 +241,8 @@ class C08(Check):
     def gen_fault(self, rng, is_leaf):
         msg = rng.choice(sorted(MSGS))
         r = rng.random()
+        if msg == 'huge' and int(r * 1000) % 2:
+            msg = 'huge-nonascii'
         if r < 0.3:
             f = {'beh': 'raise' if is_leaf else rng.choice(['raise_before', 'raise_after']), 'exc': rng.choice(sorted(EXC_TYPES)), 'msg': msg}
         elif r < 0.55:
@@ -314,8 +320,8 @@ class C08(Check):
         for name, f in op['faults'].items():
             f = dict(f)
             if 'msg' in f:
-                f['msg'] = MSGS[f['msg']]
-                if f['msg'] == MSGS['huge']:
+                f['msg'] = HUGE_NONASCII if f['msg'] == 'huge-nonascii' else MSGS[f['msg']]
+                if f['msg'] in (MSGS['huge'], HUGE_NONASCII):
                     res.probe('huge-message')
             faults[name] = f
         RT.reset(faults)
@@ -544,7 +550,7 @@ class C08(Check):
             for name, f in rq['faults'].items():
                 f = dict(f)
                 if 'msg' in f:
-                    f['msg'] = MSGS[f['msg']]
+                    f['msg'] = HUGE_NONASCII if f['msg'] == 'huge-nonascii' else MSGS[f['msg']]
                 faults[name] = f
             RT.seq_faults[seq] = faults
             if rq.get('imports'):
